@@ -1,7 +1,9 @@
 package hx
 
 import (
+	"bytes"
 	"fmt"
+	"hash/fnv"
 
 	"github.com/osteele/liquid"
 )
@@ -62,21 +64,53 @@ func Render(src string, b map[string]any) Outcome {
 	return RenderWith(liquid.NewEngine(), src, b)
 }
 
-// RenderWith parses and renders src on the given engine.
+// RenderWith parses and renders src on the given engine. The public entry
+// points are interchangeable (C02), so which pair is used is a deterministic
+// function of the source: every check exercises all of them over its cases.
 func RenderWith(e *liquid.Engine, src string, b map[string]any) (o Outcome) {
+	h := fnv.New32a()
+	h.Write([]byte(src))
+	variant := h.Sum32() % 5
 	o.Panic = Guard(func() {
-		tpl, err := e.ParseString(src)
+		if variant == 4 {
+			out, err := e.ParseAndRenderString(src, b)
+			o.Out, o.Err = out, err
+			if err != nil {
+				// tell parse errors from render errors the slow way
+				if _, perr := e.ParseString(src); perr != nil {
+					o.ParseErr = true
+				}
+			}
+			return
+		}
+		var tpl *liquid.Template
+		var err liquid.SourceError
+		switch variant {
+		case 0:
+			tpl, err = e.ParseString(src)
+		case 1:
+			tpl, err = e.ParseTemplate([]byte(src))
+		default:
+			tpl, err = e.ParseTemplateLocation([]byte(src), "", 0)
+		}
 		if err != nil {
 			o.Err, o.ParseErr = err, true
 			return
 		}
-		out, err := tpl.RenderString(b)
-		if err != nil {
-			o.Err = err
-			o.Out = out
-			return
+		switch variant {
+		case 0:
+			o.Out, o.Err = tpl.RenderString(b)
+		case 1, 2:
+			out, rerr := tpl.Render(b)
+			o.Out, o.Err = string(out), rerr
+		default:
+			var buf bytes.Buffer
+			rerr := tpl.FRender(&buf, b)
+			o.Err = rerr
+			if rerr == nil {
+				o.Out = buf.String()
+			}
 		}
-		o.Out = out
 	})
 	return o
 }
